@@ -304,18 +304,19 @@ func (m *rmodel) total() int {
 }
 
 type model struct {
-	readers  []rmodel
-	consumer []int // reader id -> op index consuming it, -1: endpoint
-	srcs     map[int32]*srcSpec
-	fwd      map[int32]int // pipe source -> number of forwarder goroutines downstream
-	nFwd     int
-	canPanic map[int32]bool
-	fdrop    map[int32]map[int32]bool // pipe source -> seqs dropped by a converter deep below a forwarder
-	sdrop    map[int32]map[int32]bool // pipe source -> seqs dropped only by converters directly below a merge (nothing forwarded further down)
-	derived  map[int32][]int          // pipe source -> indices into tree.Ends
-	endOf    map[int]int              // reader id -> index into Ends
-	nStatic  int                      // merges using the static select (2..5 streams)
-	nReflect int                      // merges using reflect.Select (>5 streams)
+	readers   []rmodel
+	consumer  []int // reader id -> op index consuming it, -1: endpoint
+	srcs      map[int32]*srcSpec
+	fwd       map[int32]int // pipe source -> number of forwarder goroutines downstream
+	nFwd      int
+	canPanic  map[int32]bool
+	fdrop     map[int32]map[int32]bool // pipe source -> seqs dropped by a converter deep below a forwarder
+	sdrop     map[int32]map[int32]bool // pipe source -> seqs dropped only by converters directly below a merge (nothing forwarded further down)
+	derived   map[int32][]int          // pipe source -> indices into tree.Ends
+	endOf     map[int]int              // reader id -> index into Ends
+	nStatic   int                      // merges using the static select (2..5 streams)
+	nReflect  int                      // merges using reflect.Select (>5 streams)
+	nArrMerge int                      // merges with at least two array-backed inputs
 }
 
 func unionSrc(a, b []int32) []int32 {
@@ -452,7 +453,7 @@ func (m *model) addOp(idx int, op *opSpec) {
 			return
 		}
 		c := rmodel{typ: tMulti, et: m.readers[op.In[0]].et}
-		streams, arrLen := 0, 0
+		streams, arrLen, arrIns := 0, 0, 0
 		for _, i := range op.In {
 			in := m.readers[i]
 			if in.et != c.et {
@@ -484,6 +485,7 @@ func (m *model) addOp(idx int, op *opSpec) {
 				streams++
 			case tArray:
 				arrLen += in.total()
+				arrIns++
 			case tMulti:
 				streams += in.nStreams
 			case tConv, tChild:
@@ -493,6 +495,9 @@ func (m *model) addOp(idx int, op *opSpec) {
 					m.fwd[s]++
 				}
 			}
+		}
+		if arrIns >= 2 {
+			m.nArrMerge++
 		}
 		if streams == 0 && arrLen != 0 {
 			c.typ = tArray
@@ -560,7 +565,7 @@ func (t *tree) shape() string {
 		case "pipe":
 			fmt.Fprintf(&b, "P%d%s;", op.Src.Cap, etNames[op.Src.Elem][:1])
 		case "array":
-			fmt.Fprintf(&b, "A%s%d;", etNames[op.Src.Elem][:1], op.Src.SliceCap-len(op.Src.Items))
+			fmt.Fprintf(&b, "A%s%s;", etNames[op.Src.Elem][:1], map[bool]string{true: "+"}[op.Src.SliceCap > len(op.Src.Items)])
 		case "copy":
 			fmt.Fprintf(&b, "C%d(%d);", op.N, op.In[0])
 		case "merge":
